@@ -1,9 +1,184 @@
 """Lemma-schema instances added to an obligation before it is sent to the solver.
-Every schema is a theorem about finite sums (proved in /verif/lemmas/Fold.lean); instances
-are sound for any arguments, so over-generating them can never make a false goal provable."""
+
+Every schema is a theorem about finite sums (statement and proof: /verif/lemmas/Fold.lean).
+Instances are implications whose hypothesis the solver has to establish itself, so they are
+sound for ANY choice of arguments: over-generating them cannot make a false goal provable.
+
+  S_lin2(F,G,H;a,c): (forall b. H b = a*F b + c*G b  \/  forall j. bd b j = 0)
+                      -> forall i. dimOf H i = a * dimOf F i + c * dimOf G i
+  S_lin1(F,H;a):     (forall b. H b = a * F b  \/  forall j. bd b j = 0) -> forall i. dimOf H i = a * dimOf F i
+                      (and, for a != 0, floor(dimOf H i / a) = dimOf F i)
+  S_update(A,B,u):   (forall b. b != u -> A b = B b) -> forall i. dimOf A i = dimOf B i + (A u - B u) * bd u i
+  S_single(u):       dimOf {u: 1} i = bd u i          S_zero: dimOf {} i = 0
+  S_supp1(F,u):      (forall b. b != u -> F b = 0) -> forall i. dimOf F i = F u * bd u i
+where dimOf F i = sum_b F b * bd b i over the (finite) support of F.
+"""
+import itertools
 import z3
 from pyvc.sorts import *  # noqa
+from .model import dimOf, bdexp
+from pyvc.ops import pydiv
+
+UNIT = Ref("Unit")
+ARR = z3.ArraySort(UNIT, I)
 
 
-def instances(ob):
-    return []
+def _free(t, depth=0, memo=None):
+    """does term t contain a de Bruijn variable that is free in t?"""
+    if z3.is_var(t):
+        return z3.get_var_index(t) >= depth
+    if z3.is_quantifier(t):
+        return _free(t.body(), depth + t.num_vars())
+    return any(_free(ch, depth) for ch in t.children())
+
+
+def _walk(fs):
+    seen = set()
+    stack = list(fs)
+    while stack:
+        x = stack.pop()
+        i = x.get_id()
+        if i in seen:
+            continue
+        seen.add(i)
+        yield x
+        if z3.is_quantifier(x):
+            stack.append(x.body())
+        else:
+            stack.extend(x.children())
+
+
+_FCACHE = {}
+
+
+def _collect_formula(f):
+    k = f.get_id()
+    hit = _FCACHE.get(k)
+    if hit is not None:
+        return hit[0]
+    arrays, units, ints = {}, {}, {}
+    for x in _walk([f]):
+        if z3.is_app(x):
+            d = x.decl()
+            if x.num_args() == 2 and d.name() == "dimOf":
+                a = x.arg(0)
+                if not _free(a):
+                    arrays[a.get_id()] = a
+            elif x.num_args() == 0 and d.kind() == z3.Z3_OP_UNINTERPRETED:
+                if x.sort() == UNIT:
+                    units[x.get_id()] = x
+                elif x.sort() == I and not d.name().startswith(("i!", "k!", "NDIM")):
+                    ints[x.get_id()] = x
+    res = (arrays, units, ints)
+    _FCACHE[k] = (res, f)
+    return res
+
+
+def collect(ob):
+    arrays, units, ints = {}, {}, {}
+    for f in list(ob.pc) + [ob.goal] + list(ob.axioms):
+        a, u, i = _collect_formula(f)
+        arrays.update(a)
+        units.update(u)
+        ints.update(i)
+    return list(arrays.values()), list(units.values()), list(ints.values())
+
+
+_sk = itertools.count()
+
+
+def instances(ob, global_axioms=()):
+    """Unconditional instances: S_zero and S_single at the unit constants of the query."""
+    _, units, _ = collect(ob)
+    i = z3.Int("i!L")
+    out = [z3.ForAll([i], dimOf(z3.K(UNIT, z3.IntVal(0)), i) == 0)]
+    for u in units[:10]:
+        single = z3.Store(z3.K(UNIT, z3.IntVal(0)), u, z3.IntVal(1))
+        out.append(z3.ForAll([i], dimOf(single, i) == bdexp(u, i)))
+    return out
+
+
+# ---------------------------------------------------------------------------------------------
+# targeted instances, attached when the executor builds a map from another map
+
+
+def _valid_at_fresh(eng, state, P, with_bd=True):
+    """prove `forall b. P(b) or forall j. bd(b,j)=0` on this path: P at a fresh unit b0
+    (and fresh index j0) from the quantifier-free path condition plus the single-variable
+    universal hypotheses instantiated at b0 / j0.  Quantifier-free query: ms either way."""
+    from pyvc.verify import preinstantiate, _flatten
+    n = next(_sk)
+    b0 = z3.Const("b!sk%d" % n, UNIT)
+    j0 = z3.Int("j!sk%d" % n)
+    hyps = list(eng.global_axioms) + list(state.pc)
+    from pyvc.verify import _ground_consts
+    uc = [c for c in _ground_consts(hyps).get("Unit", {}).values() if "!sk" not in c.decl().name()][:6]
+    inst = preinstantiate(hyps, None, rounds=2, terms={"Unit": [b0] + uc, "Int": [j0]})
+    s = z3.Solver()
+    s.set(timeout=1500)
+    for f in _flatten(hyps) + _flatten(inst):
+        if not _has_quant(f):
+            s.add(f)
+    for f in eng.global_axioms:
+        if z3.is_quantifier(f) and f.num_vars() == 2:
+            s.add(f)  # div/mod axiom (pattern-instantiated)
+    s.add(z3.Not(P(b0)))
+    if with_bd:
+        s.add(bdexp(b0, j0) != 0)
+    return s.check() == z3.unsat
+
+
+def _has_quant(f):
+    for x in _walk([f]):
+        if z3.is_quantifier(x):
+            return True
+    return False
+
+
+def _int_consts(e):
+    out = {}
+    for x in _walk([e]):
+        if z3.is_app(x) and x.num_args() == 0 and x.sort() == I and x.decl().kind() == z3.Z3_OP_UNINTERPRETED:
+            out[x.get_id()] = x
+    return list(out.values())
+
+
+def map_built(eng, state, kind, d):
+    """Hook called by the executor when it builds a Unit->int map from other maps.  Adds
+    to the path the fold-lemma conclusions whose hypotheses hold by construction (proved by
+    a small query each).  Schemas: /verif/lemmas/Fold.lean."""
+    if d["kt"] != ("obj", "Unit"):
+        return
+    i = z3.Int("i!L")
+    sel = z3.Select
+    H = d["h_val"]
+    if kind == "acc":
+        sp = d["s_space"]
+        S = getattr(sp, "src_val", None)
+        if S is None or not z3.eq(z3.simplify(d["f"]), z3.simplify(sel(S, d["key"]))):
+            return
+        A, Adom, Sdom, sg = d["a_val"], d["a_dom"], d["s_dom"], d["sign"]
+        # H b = (A b if b in A else 0) +- (S b if b in S else 0): exact when A and S are normalised
+        ok = _valid_at_fresh(eng, state, lambda b: sel(H, b) == sel(A, b) + sg * sel(S, b))
+        if ok:
+            state.assume(z3.ForAll([i], dimOf(H, i) == dimOf(A, i) + sg * dimOf(S, i)))
+            state.notes.append("S_lin2 attached (R-acc)")
+        return
+    if kind == "comp":
+        if d.get("vt") != ("int",):
+            return
+        S = d.get("src")
+        if S is None:
+            return
+        for a in [z3.IntVal(1), z3.IntVal(-1)] + _int_consts(d["g"])[:3]:
+            if _valid_at_fresh(eng, state, lambda b: sel(H, b) == a * sel(S, b)):
+                concl = dimOf(H, i) == a * dimOf(S, i)
+                state.assume(z3.ForAll([i], concl))
+                state.notes.append("S_lin1 attached (comprehension, a=%s)" % a)
+                return
+        for n in _int_consts(d["g"])[:3]:
+            if _valid_at_fresh(eng, state, lambda b: sel(S, b) == n * sel(H, b)):
+                state.assume(z3.ForAll([i], z3.And(dimOf(S, i) == n * dimOf(H, i),
+                                                   z3.Implies(n != 0, pydiv(dimOf(S, i), n) == dimOf(H, i)))))
+                state.notes.append("S_lin1 attached (comprehension, divided by %s)" % n)
+                return
